@@ -279,8 +279,12 @@ func body(p params, o *sx.Obs) {
 // ---- connection-level scenario: the real mtproto.Conn.Invoke (bad_server_salt re-send) when the connection dies ----
 
 type cparams struct {
-	// what the server does with the re-sent request (the first transmission is always rejected with bad_server_salt)
+	// what the server does with the deciding transmission (the re-sent request, or the only one with First=plain)
 	Resend string `json:"resend"` // "silent" | "ack"
+	// First: "" = the first transmission is rejected with bad_server_salt and the re-send is the transmission that decides;
+	// "plain" = no rejection: the first transmission itself is {unacknowledged, acknowledged} when the connection dies
+	// (Conn.Invoke's ordinary error path, which wraps the engine's error, instead of its re-send path, which does not)
+	First string `json:"first,omitempty"`
 }
 
 var c29key = kit.Pattern("stream:c29-conn-key", 256)
@@ -326,9 +330,9 @@ func cbody(p cparams, o *sx.Obs) {
 			n++
 			o.Log("tx #%d msg=%d salt=%x step=%d", n, pl.MsgID, pl.Salt, vsched.Step())
 			switch {
-			case n == 1:
+			case n == 1 && p.First != "plain":
 				_ = conn.VerifC29HandleMessage(0x6553f10000000005, refsession.BadServerSalt(pl.MsgID, pl.SeqNo, 48, 0x2222))
-			case n == 2:
+			case n == 2 || (n == 1 && p.First == "plain"):
 				resent = true
 				if p.Resend == "ack" {
 					_ = conn.VerifC29HandleMessage(0x6553f10000000009, refsession.MsgsAck(pl.MsgID))
@@ -371,11 +375,11 @@ func ccheck(p cparams, o *sx.Obs, x *vsched.Sched) kit.Result {
 	case !bad:
 		return kit.Bad("conn-success-without-result", "Invoke reported success although no result was ever delivered: %s", o.String())
 	case p.Resend == "silent" && !retry:
-		return kit.Bad("conn-unacked-not-retryable", "the re-sent request was never acknowledged when the connection died, but Invoke's error is not one the pool/client re-send on a new connection: %s", o.String())
+		return kit.Bad("conn-unacked-not-retryable", "the request (its last transmission) was never acknowledged when the connection died, but Invoke's error is not one the pool/client re-send on a new connection: %s", o.String())
 	case p.Resend == "ack" && retry:
-		return kit.Bad("conn-acked-retryable", "the re-sent request was acknowledged before the connection died, but Invoke's error is classified as safe to re-send: %s", o.String())
+		return kit.Bad("conn-acked-retryable", "the request (its last transmission) was acknowledged before the connection died, but Invoke's error is classified as safe to re-send: %s", o.String())
 	}
-	return kit.OKo(fmt.Sprintf("conn-level resend=%s retryable=%v", p.Resend, retry))
+	return kit.OKo(fmt.Sprintf("conn-level first=%s resend=%s retryable=%v", p.First, p.Resend, retry))
 }
 
 func scan(s, format string, a ...any) bool {
@@ -482,7 +486,7 @@ func main() {
 			}
 			return sx.Scenario[params]{Name: "reconnect", Params: p, MaxSteps: 20000, FreeBound: fb, Body: body, Check: check}
 		}
-		cscs := []cparams{{"silent"}, {"ack"}}
+		cscs := []cparams{{Resend: "silent"}, {Resend: "ack"}, {Resend: "silent", First: "plain"}, {Resend: "ack", First: "plain"}}
 		cmk := func(p cparams) sx.Scenario[cparams] {
 			return sx.Scenario[cparams]{Name: "conn-badsalt", Params: p, MaxSteps: 8000, FreeBound: 6, Body: cbody, Check: ccheck}
 		}
@@ -498,7 +502,7 @@ func main() {
 			"schedule with <= %d preemptions/early timers and a bounded number of non-default free choices. Oracle: nothing hangs (pending and late calls "+
 			"return after close); an unacknowledged request is transmitted exactly once on the replacement connection and succeeds; a request whose ack "+
 			"completed before the loss is never transmitted again and its caller gets an error; never more than one transmission per connection. Connection level: the real mtproto.Conn.Invoke whose first transmission is rejected with "+
-			"bad_server_salt and whose re-send is {unacknowledged, acknowledged} when the connection dies: the returned error must be classified retryable (pool's classifier) iff unacknowledged.", bound)
+			"bad_server_salt and whose re-send is {unacknowledged, acknowledged} when the connection dies, and (audit) the same without the rejection, i.e. the first transmission itself {unacknowledged, acknowledged} - Conn.Invoke's ordinary error path: the returned error must be classified retryable (pool's classifier) iff unacknowledged.", bound)
 		type unit struct{ sc, shard, shards int }
 		var units []unit
 		for i := range scs {
